@@ -101,6 +101,72 @@ theorem C10_import_command_keeps_invariants {s : Inst} (ha : AttInv s) (hp : Pro
     AttInv (step s (.importCmd gvr f)).1 ∧ PropInv (step s (.importCmd gvr f)).1 :=
   ⟨step_importCmd_attInv ha gvr f, step_importCmd_propInv hp gvr f⟩
 
+/-- a sequence of import commands: each file is merged into what the earlier ones left; a refused import leaves the
+    store as it was (`C10_bad_metadata`, `C10_parse_error_no_change`: a refusal yields no new store) -/
+def importSeq (gvr : String) (db : Db) : List IFile → Db
+  | [] => db
+  | f :: fs =>
+    match importFile gvr db f with
+    | .ok db' => importSeq gvr db' fs
+    | .error => importSeq gvr db fs
+
+theorem importSeq_append (gvr : String) (db : Db) (pre post : List IFile) :
+    importSeq gvr db (pre ++ post) = importSeq gvr (importSeq gvr db pre) post := by
+  induction pre generalizing db with
+  | nil => rfl
+  | cons f fs ih =>
+    simp only [List.cons_append, importSeq]
+    split <;> exact ih _
+
+theorem ProtGe.trans' {a b c : Protection} (h1 : ProtGe a b) (h2 : ProtGe b c) : ProtGe a c := by
+  unfold ProtGe at *; omega
+
+/-- **C10 (any sequence of imports never lowers).** For every prior store, every `--genesis-validators-root` and every
+    LIST of interchange files run one after the other (accepted or refused, in any mix), no field of any key ends lower
+    than it started. No hypothesis on the store: the range condition is `C10_range_any`. -/
+theorem C10_sequence_never_lowers (gvr : String) (db : Db) (fs : List IFile) :
+    ∀ k p, exportKey db k = some p → ∃ p', exportKey (importSeq gvr db fs) k = some p' ∧ ProtGe p' p := by
+  induction fs generalizing db with
+  | nil => intro k p h; exact ⟨p, h, ProtGe.refl p⟩
+  | cons f fs ih =>
+    intro k p h
+    simp only [importSeq]
+    split
+    · rename_i db' hok
+      obtain ⟨p1, h1, g1⟩ := C10_never_lowers gvr db db' f (C10_range_any db) hok k p h
+      obtain ⟨p2, h2, g2⟩ := ih db' k p1 h1
+      exact ⟨p2, h2, ProtGe.trans' g2 g1⟩
+    · exact ih db k p h
+
+/-- **C10 (any sequence of imports keeps covering every accepted file).** Whatever was imported before (`pre`) and
+    whatever is imported afterwards (`post`), every number stated by a file the command accepted is still covered by
+    the store at the end of the whole sequence. -/
+theorem C10_sequence_protects (gvr : String) (db db1 : Db) (pre post : List IFile) (f : IFile)
+    (h : importFile gvr (importSeq gvr db pre) f = .ok db1) :
+    ∀ e ∈ f.data, ∃ kb p', hexDecode0x e.pubkey = some kb ∧
+      exportKey (importSeq gvr db (pre ++ f :: post)) (fit48 kb) = some p' ∧
+      (∀ s ∈ e.blocks, ∃ v, parseInt64 s = some v ∧ 0 ≤ v ∧ v ≤ p'.slot) ∧
+      (∀ a ∈ e.atts, ∃ vs vt, parseInt64 a.1 = some vs ∧ parseInt64 a.2 = some vt ∧
+          0 ≤ vs ∧ 0 ≤ vt ∧ vs ≤ p'.src ∧ vt ≤ p'.tgt) := by
+  intro e he
+  obtain ⟨kb, p1, hk, h1, hb, ha⟩ := C10_protects gvr _ db1 f (C10_range_any _) h e he
+  have hseq : importSeq gvr db (pre ++ f :: post) = importSeq gvr db1 post := by
+    rw [importSeq_append]; simp only [importSeq, h]
+  obtain ⟨p2, h2, g2⟩ := C10_sequence_never_lowers gvr db1 post (fit48 kb) p1 h1
+  refine ⟨kb, p2, hk, by rw [hseq]; exact h2, ?_, ?_⟩
+  · intro s hs
+    obtain ⟨v, hv, h0, hle⟩ := hb s hs
+    exact ⟨v, hv, h0, by unfold ProtGe at g2; omega⟩
+  · intro a haa
+    obtain ⟨vs, vt, hvs, hvt, h0s, h0t, hles, hlet⟩ := ha a haa
+    exact ⟨vs, vt, hvs, hvt, h0s, h0t, by unfold ProtGe at g2; omega, by unfold ProtGe at g2; omega⟩
+
+/-- the premises are satisfiable: a sequence of two accepted files on an empty store -/
+example : ∃ db1, importFile "0x0000000000000000000000000000000000000000000000000000000000000000"
+      (importSeq "0x0000000000000000000000000000000000000000000000000000000000000000" [] [])
+      { metadata := some ("5", "0x0000000000000000000000000000000000000000000000000000000000000000"), data := [] } = .ok db1 :=
+  ⟨_, rfl⟩
+
 /-- **tie by translation.** The merge the theorems above are about is, entry by entry, the code translated on every run
     from the Go source of `storeSlashingProtection` (package main): the value a key starts from (an earlier entry of the
     file, else the existing store's record, else −1/−1/−1), the raise-only fold of each signed attestation and each signed
